@@ -111,7 +111,7 @@ fn scratch_root() -> String {
 /// Does this strace accept the injection specification (system call and errno names)?
 fn inject_spec_ok(call: &str, errno: &str) -> bool {
     std::process::Command::new("/usr/bin/strace")
-        .args(["-f", "-qq", "-o", "/dev/null", "-e", &format!("trace={call}"), "-e", &format!("inject={call}:error={errno}:when=65535"), "/bin/true"])
+        .args(["--seccomp-bpf", "-f", "-qq", "-o", "/dev/null", "-e", &format!("trace={call}"), "-e", &format!("inject={call}:error={errno}:when=65535"), "/bin/true"])
         .stdin(std::process::Stdio::null())
         .stdout(std::process::Stdio::null())
         .stderr(std::process::Stdio::null())
@@ -125,9 +125,34 @@ fn harness_fail(msg: &str) -> ! {
     std::process::exit(2);
 }
 
+/// Unmount whatever is still mounted below `dir` (full-disk histories mount a tmpfs per history).
+fn unmount_below(dir: &Path) {
+    let Ok(text) = std::fs::read_to_string("/proc/mounts") else { return };
+    let prefix = format!("{}/", dir.display());
+    let mut targets: Vec<String> = text.lines().filter_map(|l| l.split(' ').nth(1)).filter(|t| t.starts_with(&prefix)).map(|t| t.replace("\\040", " ")).collect();
+    targets.sort_by_key(|t| std::cmp::Reverse(t.len()));
+    for t in targets {
+        anything_sim::history::tmpfs_umount(Path::new(&t));
+    }
+}
+
+/// Scratch directories of simulator processes that no longer exist (killed runs): unmount and remove.
+fn remove_stale_scratch(root: &str) {
+    let Ok(rd) = std::fs::read_dir(root) else { return };
+    for e in rd.filter_map(|e| e.ok()) {
+        let name = e.file_name().to_string_lossy().to_string();
+        let Some(pid) = name.strip_prefix("verif-sim-").and_then(|p| p.parse::<u32>().ok()) else { continue };
+        if !Path::new(&format!("/proc/{pid}")).exists() {
+            unmount_below(&e.path());
+            let _ = std::fs::remove_dir_all(e.path());
+        }
+    }
+}
+
 struct Scratch(PathBuf);
 impl Drop for Scratch {
     fn drop(&mut self) {
+        unmount_below(&self.0);
         let _ = std::fs::remove_dir_all(&self.0);
     }
 }
@@ -357,6 +382,7 @@ fn absorb(st: &mut Stats, ctx: &Ctx, idx: usize, h: &History, trace: &Trace, vs:
                 }
             }
             Step::Damage { .. } => outcome.push(json!({"step": i, "damaged_to": so.dir.class(ctx.side(so.alt).1)})),
+            Step::Disk { free_pages, free_inodes } => outcome.push(json!({"step": i, "disk_free_pages": free_pages, "disk_free_inodes": free_inodes})),
             Step::Start { session } => {
                 st.starts += 1;
                 let Some(c) = &so.child else { continue };
@@ -704,6 +730,7 @@ fn cmd_run(o: &Opts) -> i32 {
         harness_fail(&format!("unknown property {prop:?}"));
     }
     let scratch_root = scratch_root();
+    remove_stale_scratch(&scratch_root);
     let scratch = Scratch(PathBuf::from(scratch_root).join(format!("verif-sim-{}", std::process::id())));
     let findings = load_findings(&o.verif);
     println!("simctl: property={prop} tier={} seed={} jobs={} repo={}", o.tier, o.seed, o.jobs, o.repo);
@@ -855,7 +882,7 @@ fn cmd_run(o: &Opts) -> i32 {
         let strace_ok = std::path::Path::new("/usr/bin/strace").is_file()
             && std::env::var("VERIF_NO_STRACE").is_err()
             && std::process::Command::new("/usr/bin/strace")
-                .args(["-f", "-qq", "-o", "/dev/null", "-e", "trace=write", "-e", "inject=write:error=ENOSPC:when=65535", "/bin/true"])
+                .args(["--seccomp-bpf", "-f", "-qq", "-o", "/dev/null", "-e", "trace=write", "-e", "inject=write:error=ENOSPC:when=65535", "/bin/true"])
                 .stdin(std::process::Stdio::null())
                 .stdout(std::process::Stdio::null())
                 .stderr(std::process::Stdio::null())
@@ -873,8 +900,8 @@ fn cmd_run(o: &Opts) -> i32 {
                     }
                     for when in 1..=max {
                         for errno in [None, Some(errno.to_string())] {
-                            // quick: a seeded 1-in-60 sample keeps the injector exercised on every change
-                            if quick && !r.chance(1, 60) {
+                            // quick: a seeded 1-in-8 sample keeps the injector exercised on every change
+                            if quick && !r.chance(1, 8) {
                                 continue;
                             }
                             let seed = derive(o.seed, "C15-sys", sys.len() as u64);
@@ -885,6 +912,42 @@ fn cmd_run(o: &Opts) -> i32 {
             }
             n_sys = sys.len();
             collect(&mut st, &mut found, &sys);
+        }
+        // phase 4b: a real full disk. The data directory lives on a file system of its own whose
+        // capacity is swept page by page and inode by inode over everything a rebuild needs.
+        let mut n_disk = 0;
+        let mount_ok = std::env::var("VERIF_NO_MOUNT").is_err() && anything_sim::history::can_mount(&ctx.scratch);
+        if mount_ok {
+            let mut cells = Vec::new();
+            let mut dstates = gen::syscall_states(&ctx);
+            dstates.push(("complete".into(), gen::state(true, anything_sim::dirstate::MetaSpec::Current, anything_sim::dirstate::IndexSpec::Complete)));
+            dstates.push(("torn-meta+complete".into(), gen::state(true, anything_sim::dirstate::MetaSpec::CurrentPrefix { bytes: 9 }, anything_sim::dirstate::IndexSpec::Complete)));
+            for (tag, s) in &dstates {
+                for pages in 0..=44u64 {
+                    if quick && pages % 4 != 1 {
+                        continue;
+                    }
+                    let seed = derive(o.seed, "C15-disk", cells.len() as u64);
+                    cells.push(gen::c15_disk_cell(&ctx, tag, s, Some(pages), None, subset.clone(), seed));
+                }
+                for inodes in 0..=18u64 {
+                    if quick && inodes % 3 != 1 {
+                        continue;
+                    }
+                    let seed = derive(o.seed, "C15-disk", cells.len() as u64);
+                    cells.push(gen::c15_disk_cell(&ctx, tag, s, None, Some(inodes), subset.clone(), seed));
+                }
+                if !quick {
+                    // both limits at once, seeded
+                    let mut r = Rng::new(derive(o.seed, "C15-disk-both", cells.len() as u64));
+                    for _ in 0..30 {
+                        let seed = derive(o.seed, "C15-disk", cells.len() as u64);
+                        cells.push(gen::c15_disk_cell(&ctx, tag, s, Some(r.range(0, 40) as u64), Some(r.range(0, 16) as u64), subset.clone(), seed));
+                    }
+                }
+            }
+            n_disk = cells.len();
+            collect(&mut st, &mut found, &cells);
         }
         // phase 5: the same code built with other embedded data ("written for other data" for real)
         let mut n_two = 0;
@@ -928,7 +991,7 @@ fn cmd_run(o: &Opts) -> i32 {
             n_two = two.len();
             collect(&mut st, &mut found, &two);
         }
-        extra = json!({"two_build_histories": n_two, "two_build": two_note, "syscall_level_histories": n_sys, "syscall_injector": if strace_ok { "strace -f -e inject=<call>:signal=SIGKILL|error=<errno>:when=K around the simnode child" } else { "skipped: strace not available" },
+        extra = json!({"full_disk_histories": n_disk, "full_disk": if mount_ok { "the data directory on a tmpfs of its own whose free pages (0..=44) and free inodes (0..=18) are swept; ENOSPC comes from the kernel" } else { "skipped: this process may not mount a tmpfs" }, "two_build_histories": n_two, "two_build": two_note, "syscall_level_histories": n_sys, "syscall_injector": if strace_ok { "strace -f -e inject=<call>:signal=SIGKILL|error=<errno>:when=K around the simnode child" } else { "skipped: strace not available" },
             "listed_states": states.len(), "undisturbed_state_probes": probes.len(), "state_x_crash_point_cells": n_cells, "seeded_deeper_histories": n_random,
             "exhaustive_over": "every listed state class x every hook point its recovery reaches x kill and fail (all sampled k per multi-hit point); other torn lengths / garbage kinds with a seeded sample of sites"});
     } else {
@@ -1141,6 +1204,7 @@ fn cmd_replay(o: &Opts) -> i32 {
                 so.child.as_ref().and_then(|c| c.fault_fired()).map(|f| format!(" fired {}@{}#{}", f.0, f.1, f.2)).unwrap_or_default()
             ),
             Step::Cli { query, .. } => format!("any {query:?} -> {:?}", so.child.as_ref().map(|c| c.exit.clone())),
+            Step::Disk { free_pages, free_inodes } => format!("data file system now has room for {free_pages:?} more pages, {free_inodes:?} more inodes"),
         };
         println!("step {i}: {what}; directory now {}", so.dir.class(ctx.side(so.alt).1));
     }
